@@ -21,7 +21,8 @@ RULE = ('one run = one simulated hand of a board game (hold\'em, short-deck, roy
         'interleaved arbitrarily with showing, 1 or 2 starting boards. Monitors: a selection is logged/available only in '
         'cash mode, only when at most one remaining player has chips and community cards are still to come, and then it '
         'IS offered - once - to exactly the players remaining when the all-in showdown opened, each at most once, in any '
-        'order; agreed count = r iff all expressed preferences equal r, else 1 (None if nobody expressed one); never more '
+        'order; independently of the engine\'s own all-in detection, no later street is dealt in a cash game while the '
+        'stacks say that at most one remaining player has chips and no offer was opened; agreed count = r iff all expressed preferences equal r, else 1 (None if nobody expressed one); never more '
         'than one board per starting board in tournament mode; at the end board_count == b*r, every board is complete, '
         'the r run-outs of a starting board share exactly the cards dealt before the all-in and no card occurs twice over '
         'boards and hands; each pot is divided evenly over the boards (exactly for Fraction chips, remainder to the first '
@@ -29,7 +30,8 @@ RULE = ('one run = one simulated hand of a board game (hold\'em, short-deck, roy
         '(variant, mode, b, street of all-in, preference vector, selection/show interleaving) tuples')
 ASSUMPTIONS = [
     'capacity rule: preferences are drawn only from counts the deck can physically serve',
-    'voluntary mucks are not played in this check (an empty table before the run-out is C01/C07\'s K-family)',
+    'a third of the runs play voluntary mucks at the showdown; whether a player who gave up is still asked for a '
+    'run-out count is UNSPECIFIED, but a preference he does express counts like anybody else\'s',
 ]
 BIAS = dict(variants=BOARD_CODES, chips=('int', 'fraction'), rakes=('none',), sbcs=(1, 1, 2),
             stack_pool=(1, 2, 3, 5, 8, 8, 13, 13, 20, 40), divmods=('default',))
@@ -46,6 +48,8 @@ class RunoutMonitor(Monitor):
         self.show_phase = 0
         self.last_class = None
         self.inter = ''
+        self.missed_reported = False
+        self.gave_up = set()         # players who mucked voluntarily: whether they are still asked is UNSPECIFIED
 
     def on_op(self, world, st, op):
         t = type(op).__name__
@@ -65,6 +69,19 @@ class RunoutMonitor(Monitor):
                 self.offer_expected = {i for i in range(n) if live[i]}
                 self.allin_street = k
                 self.pre_allin_rows = len(st.board_cards)
+        if t in ('CardBurning', 'BoardDealing') and not self.first_show_seen and st.mode == Mode.CASH_GAME \
+                and st.street_index is not None and st.street_index >= 1 and not self.missed_reported:
+            # independent of the engine's own all-in detection: the remaining players' stacks say that nobody can bet
+            # any more, community cards are still to come, and yet dealing goes on without an all-in showdown
+            live = live_model(st.operations[:-1], n)
+            with_chips = sum(1 for i in range(n) if live[i] and st.stacks[i] > 0)
+            k = st.street_index
+            to_come = any(s.board_dealing_count for s in st.streets[k:])
+            if sum(live) >= 2 and with_chips <= 1 and to_come and not any(st.bets):
+                self.missed_reported = True
+                raise Violation('C14.offer', f'cash game: the {sum(live)} remaining players are all-in (stacks {st.stacks}) with '
+                                f'community cards still to come, but street {k} is being dealt without the run-out choice '
+                                f'having been offered', rule='missed_all_in')
         if t == 'RunoutCountSelection':
             self.inter += 'n'
             i = op.player_index
@@ -92,8 +109,10 @@ class RunoutMonitor(Monitor):
                                 f'{st.runout_count}, the rule says {want}', rule='consensus')
         elif t == 'HoleCardsShowingOrMucking':
             self.inter += 's'
+            if not op.hole_cards:
+                self.gave_up.add(op.player_index)
         if t in ('BoardDealing', 'CardBurning', 'HoleDealing') and self.offer_expected is not None and self.first_show_seen:
-            missing = self.offer_expected - {p for p, _ in self.selected}
+            missing = self.offer_expected - {p for p, _ in self.selected} - self.gave_up
             if missing and not getattr(self, 'reported_missing', False):
                 self.reported_missing = True
                 raise Violation('C14.offer', f'dealing resumed although players {sorted(missing)} were never asked for a '
@@ -110,7 +129,7 @@ class RunoutMonitor(Monitor):
         if self.offer_expected is not None and st.street_index == getattr(self, 'allin_street', None) \
                 and world.enabled_phase() == 'showdown':
             done = {p for p, _ in self.selected}
-            for i in sorted(self.offer_expected - done):
+            for i in sorted(self.offer_expected - done - self.gave_up):
                 if not st.can_select_runout_count(None, i):
                     raise Violation('C14.offer', f'all-in showdown on street {self.allin_street} of a cash game with '
                                     f'community cards to come, but player {i} is not offered a run-out choice',
@@ -194,7 +213,8 @@ def run(ch, ctx):
     mon = RunoutMonitor(cfg)
     world = None
     try:
-        world = World(ch, ctx, cfg, [mon], run_key=run_key_of(ch), muck_num=0, partial_show=False,
+        mucks = ch.chance('c14.mucks', 1, 3)
+        world = World(ch, ctx, cfg, [mon], run_key=run_key_of(ch), muck_num=2 if mucks else 0, partial_show=False,
                       profile=ch.choice('c14.profile', ('shover', 'aggressive', 'aggressive', 'balanced')),
                       runout_prefs=(None, 1, 2, 2, 3, 3))
         if ch.chance('c14.consensus', 1, 2):       # half of the tables agree (with abstentions), so that r > 1 is reached often
